@@ -97,6 +97,19 @@ def check(prop, tier):
             sig = lambda e: (e["rpc"], e["outcome"], tuple(sorted((k, c) for k, c in e["shape"].items() if c not in base))[:1])
             remaining = [e for e in remaining if sig(e) != sig(bad)]
     # de-duplicate across chunks
+    # Announce / Discover over the real transport (Membership.tla): a request that is not signed by the address it names
+    # is refused and leaves every peer table as it was; one that is, is entered - judged by TLC on the recorded run
+    import memberchk
+    mviol, mev, macts, mbeh = memberchk.run(tier, os.path.join(wd, "member"), drivebin, nrandom=25 if tier == "quick" else 300)
+    member_note = "discovery protocol: %d behaviours, %d events %s" % (mbeh, mev, macts)
+    for v in mviol:
+        if v["event"].get("a") == "Adv":
+            violations.append(dict(what="C15_PeerTableOnlyBySignedRequest (%s)" % v["what"],
+                                   event={"rpc": "gossip." + v["event"]["kind"].capitalize(), "msg": "ConnectionData", "must": False,
+                                          "shape": {}, "recorded": v["event"]}, behaviour=v["behaviour"]))
+        else:
+            member_note += "; NOT explained by Membership.tla at a %s step (outside C15, see ./check M01)" % v["event"].get("a")
+    log("[member] " + member_note)
     uniq = {}
     for v in violations:
         base = {"exact", "valid", "present", "small", "one"}
@@ -131,6 +144,17 @@ def replay(prop, path):
     wd = rundir("%s-replay" % prop)
     drivebin = build_harness(into=wd)
     e = v["event"]
+    if "recorded" in e:
+        # a step of the discovery protocol: run the behaviour it came from again, TLC judges the new recording
+        import memberchk
+        beh = v.get("behaviour") or {"id": "replay", "nodes": memberchk.NODES, "genesis": "g", "ops": []}
+        mviol, _, _ = memberchk.drive_validate(os.path.join(wd, "member"), drivebin, [beh])
+        if any(x["event"].get("a") == "Adv" for x in mviol):
+            print("VIOLATION property=%s replay=%s" % (prop, path), flush=True)
+            log("  " + json.dumps(mviol[0]["event"])[:300])
+            return 1
+        log("replay: the discovery behaviour is explained by Membership.tla")
+        return 0
     open(os.path.join(wd, "shapes.ndjson"), "w").write(json.dumps({"rpc": e["rpc"], "msg": e["msg"], "shape": e["shape"], "must": e["must"]}) + "\n")
     subprocess.run([drivebin, "shapes", "shapes.ndjson", "trace.ndjson"], cwd=wd, stdout=subprocess.PIPE, stderr=subprocess.DEVNULL, timeout=600)
     r = json.loads(open(os.path.join(wd, "trace.ndjson")).readline())
